@@ -200,39 +200,60 @@ fn refused_while_free(cx: &mut Ctx) {
     // hold intervals per host
     let mut holds: BTreeMap<String, Vec<(u64, u64)>> = BTreeMap::new();
     for c in h.clients.values() {
-        if !is_data_client(c) && c.role != "warmup" {
+        // everybody who can hold a server counts: workers, probes, warm-up clients, holders, attackers
+        if c.role == "admin" || c.database == "pgcat" {
             continue;
         }
         let session = cx.pool_mode(&c.database, &c.user) == "session";
-        let mut by_txn: BTreeMap<u32, (u64, u64, std::collections::BTreeSet<String>)> = BTreeMap::new();
+        // Walk the program: a hold opens with the first tagged request and stays open, through
+        // think times, until a request ends with the server idle (transaction mode) or the client is
+        // gone (session mode, a transaction left open, a cut connection).
+        let client_end = c.steps.last().map(|s| s.done_us).unwrap_or(0).saturating_add(50_000);
+        let mut cur: Option<(u64, std::collections::BTreeSet<String>)> = None;
         for s in &c.steps {
-            for t in &s.tags {
-                if t.c != c.id {
-                    continue;
-                }
-                let key = if session { 0 } else { t.t };
-                let e = by_txn.entry(key).or_insert((s.start_us, s.done_us, Default::default()));
-                e.0 = e.0.min(s.start_us);
-                e.1 = e.1.max(s.done_us);
+            let mine: Vec<&Tag> = s.tags.iter().filter(|t| t.c == c.id).collect();
+            if mine.is_empty() {
+                continue;
+            }
+            let e = cur.get_or_insert((s.start_us, Default::default()));
+            for t in mine {
                 if let Some(v) = cx.ix.exec_by_tag.get(t) {
                     for si in v {
-                        e.2.insert(h.backend_conns[h.stmts[*si].conn].host.clone());
+                        e.1.insert(h.backend_conns[h.stmts[*si].conn].host.clone());
                     }
                 }
                 if let Some(v) = cx.ix.units_by_tag.get(t) {
                     for (ci, _) in v {
-                        e.2.insert(h.backend_conns[*ci].host.clone());
+                        e.1.insert(h.backend_conns[*ci].host.clone());
+                    }
+                }
+            }
+            if !session && matches!(s.outcome, StepOutcome::Ready(b'I')) {
+                if let Some((a, hosts)) = cur.take() {
+                    for host in hosts {
+                        holds.entry(host).or_default().push((a, s.done_us));
                     }
                 }
             }
         }
-        for (_, (a, mut b, hosts)) in by_txn {
-            if session {
-                // the session keeps its server until the client is gone
-                b = c.steps.last().map(|s| s.done_us).unwrap_or(b).max(b);
+        if cur.is_some() {
+            // The client went away (or stopped) with a request outstanding: the pooler keeps the
+            // server until it has dealt with the reply, which on a slow link can take long. The
+            // connection is provably not available to anybody else before the next statement of
+            // another client starts on it, or it is closed.
+            let (a, hosts) = cur.take().unwrap();
+            let mut end = client_end;
+            for (ci, bc) in h.backend_conns.iter().enumerate() {
+                if !bc.units.iter().any(|u| u.tags.iter().any(|t| t.c == c.id)) {
+                    continue;
+                }
+                let my_last = h.stmts.iter().filter(|e| e.conn == ci && e.rec.tags.iter().any(|t| t.c == c.id)).map(|e| e.start_us).max().unwrap_or(0);
+                let next_other = h.stmts.iter().filter(|e| e.conn == ci && e.start_us > my_last && !e.rec.tags.is_empty() && e.rec.tags.iter().all(|t| t.c != c.id)).map(|e| e.start_us).min();
+                let free_at = next_other.or(bc.closed_us).unwrap_or(u64::MAX / 4);
+                end = end.max(free_at);
             }
             for host in hosts {
-                holds.entry(host).or_default().push((a, b));
+                holds.entry(host).or_default().push((a, end));
             }
         }
     }
@@ -253,7 +274,14 @@ fn refused_while_free(cx: &mut Ctx) {
             let pool_hosts: Vec<&crate::spec::HostSpec> = cx.spec.hosts.iter().filter(|x| x.pool == c.database && x.role != "mirror").collect();
             let size = cx.pool_param(&c.database, &c.user, "size").and_then(|v| v.as_u64()).unwrap_or(1) as usize;
             for hs in pool_hosts {
-                let iv = holds.get(&hs.addr).cloned().unwrap_or_default();
+                let mut iv = holds.get(&hs.addr).cloned().unwrap_or_default();
+                // a connection that is still being established occupies a slot of the pool as
+                // well (on a slow network the handshake alone can outlast connect_timeout)
+                let settle = (300 + 8 * (cx.spec.net.latency_ms.1 + cx.spec.net.jitter_ms)) * 1000;
+                for bc in h.backend_conns.iter().filter(|b| b.host == hs.addr && b.kind == "session") {
+                    let end = bc.authed_us.map(|a| a + settle).or(bc.closed_us).unwrap_or(u64::MAX / 4);
+                    iv.push((bc.opened_us, end));
+                }
                 // sweep: longest stretch inside [w0,w1] with >= size concurrent holds (gaps < 50 ms tolerated)
                 let mut pts: Vec<u64> = vec![w0, w1];
                 for (a, b) in &iv {
